@@ -435,7 +435,41 @@ Definition project_tbl (vs : list nat) (t : tbl) : res tbl :=
 (** * the whole of [execute_sparql] for a SELECT query of the core
     ([translate_select]: pattern, aggregate, Sort, Skip, Limit, Distinct — which [plan_operator]
     drops —, Project unless an aggregate is selected or the projection is [*]) *)
+(** the column names of the plan of a pattern (planning does not look at the data) *)
+Definition join_cols (lc rc : list nat) : list nat :=
+  lc ++ map (fun i => nth i rc O) (keep_right lc rc).
+Fixpoint bgp_cols (acc : option (list nat)) (tps : list tpat) : option (list nat) :=
+  match tps with
+  | [] => acc
+  | tp :: r => bgp_cols (Some (match acc with None => scan_cols tp | Some a => join_cols a (scan_cols tp) end)) r
+  end.
+Fixpoint pat_cols (p : pat) : option (list nat) :=
+  match p with
+  | PBgp tps => bgp_cols None tps
+  | PJoin a b | POpt a b _ =>
+      match pat_cols a, pat_cols b with Some ca, Some cb => Some (join_cols ca cb) | _, _ => None end
+  | PFilter _ a => pat_cols a
+  | PUnion a b => match pat_cols a, pat_cols b with Some ca, Some _ => Some ca | _, _ => None end
+  end.
+(** errors the planner raises before anything is executed: a sort key or a projected variable
+    that is not a column of its input *)
+Definition plan_ok (q : query) : bool :=
+  match pat_cols (q_pat q) with
+  | None => true      (* an empty group: reported by [plan_pat] *)
+  | Some cols =>
+      let cols1 := match q_proj q with ProjCount => [count_col] | _ => cols end in
+      (match q_order q with
+       | [] => true
+       | ks => match resolve_keys cols1 ks with Some _ => true | None => false end
+       end)
+      && (match q_proj q with
+          | ProjVars ((_ :: _) as vs) => match resolve_vars cols1 vs with Some _ => true | None => false end
+          | _ => true
+          end)
+  end.
+
 Definition run_select (st : store) (q : query) : res (list nat * list row) :=
+  if negb (plan_ok q) then Err else
   bindr (plan_pat st (q_pat q)) (fun t0 =>
   bindr (match q_proj q with
          | ProjCount => match q_order q with [] => Done (count_tbl t0) | _ => Unsup end
